@@ -4,6 +4,8 @@ use super::bb_c10::*;
 use super::bb_c12::*;
 use super::bb_graph::*;
 use super::bb_oneshot::*;
+use super::inc_config::*;
+use super::projset::*;
 use super::prop::*;
 use super::report::*;
 use super::sim::SimParams;
@@ -75,10 +77,13 @@ pub fn main() -> i32 {
         "C06" => c06(&ctx),
         "C07" => c07(&ctx),
         "C08" => c08(&ctx),
+        "C09" => c09(&ctx),
         "C10" => c10(&ctx),
         "C11" => c11(&ctx),
         "C12" => c12(&ctx),
+        "C14" => c14(&ctx),
         "C17" => c17(&ctx),
+        "C19" => c19(&ctx),
         "C20" => c20(&ctx),
         _ => {
             eprintln!("unknown property {}", property);
@@ -470,6 +475,127 @@ fn c12(ctx: &Ctx) -> i32 {
             stream: 112,
         };
         let (part, failures) = run_prop(&pr, c12_case, eval_c12);
+        report.add(part);
+        for f in failures {
+            report.fail(f);
+        }
+    }
+    report.finish()
+}
+
+fn inc_replays(ctx: &Ctx, report: &mut Report) -> u64 {
+    let mut n = 0;
+    let open = report.open_signatures();
+    for path in replay_files(ctx) {
+        let v = match read_replay(&path) {
+            Ok(v) => v,
+            Err(e) => {
+                report.infra_errors.push(e);
+                continue;
+            }
+        };
+        let r = &v["replay"];
+        let engine = r["engine"].as_str().unwrap_or("");
+        let res = match engine {
+            "INC-c09" | "INC-c19" => {
+                let ps: Result<ProjSet, _> = serde_json::from_value(r["projset"].clone());
+                let req: Vec<u8> = serde_json::from_value(r["req"].clone()).unwrap_or_default();
+                match ps {
+                    Ok(ps) => {
+                        let c = C09Case { ps, req };
+                        Some(if engine == "INC-c09" { eval_c09(&c) } else { eval_c19(&c) })
+                    }
+                    Err(e) => {
+                        report.infra_errors.push(format!("{}: {}", path.display(), e));
+                        None
+                    }
+                }
+            }
+            "INC-c14" => match serde_json::from_value::<ProjSet>(r["projset"].clone()) {
+                Ok(ps) => Some(eval_c14_structured(&ps, &open)),
+                Err(e) => {
+                    report.infra_errors.push(format!("{}: {}", path.display(), e));
+                    None
+                }
+            },
+            _ => None,
+        };
+        if let Some(res) = res {
+            n += 1;
+            if let Some(msg) = res.violation {
+                println!("  replay {} fails: {}", path.display(), msg);
+                report.fail(Failure {
+                    message: msg,
+                    signature: res.signature.unwrap_or_default(),
+                    replay: res.replay,
+                });
+            }
+        }
+    }
+    n
+}
+
+fn c09(ctx: &Ctx) -> i32 {
+    let mut report = Report::new(ctx, "exploration");
+    report.assume("reference resolver (reachability + colouring cycle test) written from the statement; only the accept/reject verdict and the resolved set are compared, not which error is reported first");
+    inc_replays(ctx, &mut report);
+    if ctx.replay.is_none() {
+        let pr = PropRun {
+            ctx,
+            engine: "INC",
+            rule: "1-4 project files with overlapping target names, dependencies / X.output references (bare, qualified, to unknown targets or projects, closing cycles, .output of services/aggregates) x requested subset; real loader + resolver vs reference closure; valid => same key set, project directory and dependency lists; invalid (reachable defect) => Err; unreachable defects must not matter; non-trivial = cross-project / shared revisit / cycle / unknown project / output of non-build / defect present but unreachable; distinct = class set x #projects",
+            total_cases: ctx.tier.pick(5000, 200_000),
+            threads: ctx.threads,
+            max_shrink_iters: 2000,
+            stream: 109,
+        };
+        let (part, failures) = run_prop(&pr, c09_case, eval_c09);
+        report.add(part);
+        for f in failures {
+            report.fail(f);
+        }
+    }
+    report.finish()
+}
+
+fn c19(ctx: &Ctx) -> i32 {
+    let mut report = Report::new(ctx, "exploration");
+    inc_replays(ctx, &mut report);
+    if ctx.replay.is_none() {
+        let pr = PropRun {
+            ctx,
+            engine: "INC",
+            rule: "1-4 projects whose targets draw names from a 5-name alphabet (so equal names occur in several projects), named/unnamed root x requested spellings (bare, qualified, both) x bare/qualified references; accepted-name set equality, both spellings => one id, bare reference => target of the same project (checked through the resolved project directory); non-trivial = a target name shared by >= 2 projects is requested or referenced bare; distinct = class set x #shared names",
+            total_cases: ctx.tier.pick(5000, 200_000),
+            threads: ctx.threads,
+            max_shrink_iters: 2000,
+            stream: 119,
+        };
+        let (part, failures) = run_prop(&pr, c19_case, eval_c19);
+        report.add(part);
+        for f in failures {
+            report.fail(f);
+        }
+    }
+    report.finish()
+}
+
+fn c14(ctx: &Ctx) -> i32 {
+    let mut report = Report::new(ctx, "exploration");
+    report.assume("independent validator over the generated AST (names, kinds, unknown keys, import keys, unique project names); only accept/reject and the meaning of names are compared, not error texts");
+    inc_replays(ctx, &mut report);
+    if ctx.replay.is_none() {
+        let open = report.open_signatures();
+        let pr = PropRun {
+            ctx,
+            engine: "INC",
+            rule: "project sets from a grammar of the documented schema with 0-3 defects of known verdict (unknown key at project/target/resource level, two kinds, no kind, bad project/target name incl. Unicode word characters, wrong import key, unnamed import, import cycle, self-import, duplicate project name); loader verdict vs independent validator; on accept the meaning of every accepted name (project directory, kind, dependencies, script) is identical over 8 loads; non-trivial = >= 1 defect or >= 2 projects; distinct = defect-class set",
+            total_cases: ctx.tier.pick(4000, 100_000),
+            threads: ctx.threads,
+            max_shrink_iters: 2000,
+            stream: 114,
+        };
+        let (part, failures) = run_prop(&pr, c14_case, |ps: &ProjSet| eval_c14_structured(ps, &open));
         report.add(part);
         for f in failures {
             report.fail(f);
